@@ -23,3 +23,42 @@ var commentBases = []base{
 	{name: "cmtinfor", segs: []seg{T("p@"), B("for i in xs"), C(" c "), T("@"), V("i"), C(" d "), T("@"), C(" e "), B("endfor"), T("@q")}, noModel: true},
 	{name: "cmtnewline", segs: []seg{T("p@"), V("a"), C("\n c\n"), T("@q")}, noModel: true},
 }
+
+// Comments whose BODY looks like something else (added after the seeded change C14-E was missed): quotes
+// and apostrophes (balanced and not), backslashes, closing and opening delimiters of the other tag kinds,
+// dashes directly inside the comment delimiters. A comment ends at the first "#}" whatever stands in
+// between; a tokenizer that reads comment bodies with the rules of expressions (string literals,
+// escapes, whitespace control) reads such a template differently. Each body stands alone, between
+// texts, in front of a print tag (plain, and one that holds string literals of both kinds), in front of
+// another comment, and between texts that hold quotes themselves. They go through the ordinary padding
+// enumeration of part A.
+var quoteCommentBodies = []struct{ name, body string }{
+	{"apos", " it's "},
+	{"quot", ` say "hi" `},
+	{"aposquot", ` ' " `},
+	{"quot1", ` 15" `},
+	{"aposend", " see 'notes"},
+	{"closers", " }} %} "},
+	{"openers", " {{ {% "},
+	{"dash", " - "},
+	{"dashed", "- x -"},
+	{"dashes", "---"},
+	{"backslash", ` \ `},
+	{"bsapos", ` \' `},
+	{"aposbs", ` 'a\' `},
+	{"strcloser", ` '#' "}}" `},
+}
+
+func init() {
+	for _, q := range quoteCommentBodies {
+		c := C(q.body)
+		commentBases = append(commentBases,
+			base{name: "qc" + q.name + "alone", segs: []seg{c}, noModel: true},
+			base{name: "qc" + q.name + "text", segs: []seg{T("p@"), c, T("@q")}, noModel: true},
+			base{name: "qc" + q.name + "print", segs: []seg{T("p@"), c, V("a"), T("@q")}, noModel: true},
+			base{name: "qc" + q.name + "printstr", segs: []seg{T("p@"), c, V(`a ~ "b" ~ 'c'`), T("@q")}, noModel: true},
+			base{name: "qc" + q.name + "comment", segs: []seg{T("p@"), c, C(" d "), T("@q")}, noModel: true},
+			base{name: "qc" + q.name + "quotedtext", segs: []seg{T("it's@"), c, T("@"), V("a"), T("@it's \"q"), C(" e's "), T("@r")}, noModel: true},
+		)
+	}
+}
